@@ -4,7 +4,7 @@
    magic numbers alone; the shape and population ids are functions of the sample list only (no hash-iteration order
    enters: the model of population_sizes uses point lookups only, as the code does); the modelled pipeline takes the
    decoded call set as its only input. *)
-From Sfs Require Import Index ArrayM Scalar Spectrum Project Create Npy Text Stream IndexP ArrayP NpyP StreamP DetectP CreateP CreateSpecP.
+From Sfs Require Import Index ArrayM Scalar Spectrum Project Create Npy Text Container Stream IndexP ArrayP NpyP StreamP DetectP CreateP CreateSpecP ContainerP.
 From Coq Require Import Permutation.
 
 Close Scope string_scope. Open Scope N_scope.
@@ -59,4 +59,29 @@ Theorem C12_column_order_free : forall m cols cols' pto st gs gs',
   snd (read_site m cols pto st gs) = snd (read_site m cols' pto st gs').
 Proof. exact (@read_site_column_perm). Qed.
 Print Assumptions C12_column_order_free.
+
+Close Scope string_scope. Open Scope N_scope.
+(* a genotype is classified alike whether it arrives as VCF text or as the int8 vector htslib writes into a BCF record *)
+Theorem C12_genotype_container_free : forall (g : agt) (w : nat),
+  g <> [] -> int8_ok g = true -> (length g <= w)%nat ->
+  classify_field (vcf_field_gt (render_gt g)) = Some (classify (Some (map fst g))) /\
+  classify_field (bcf_field_gt (hts_encode g w)) = Some (classify (Some (map fst g))).
+Proof. exact (@gt_container_independent). Qed.
+Print Assumptions C12_genotype_container_free.
+
+Close Scope string_scope. Open Scope N_scope.
+(* ... for a whole record, every sample padded to the widest genotype of the record (mixed ploidy, missing fields) *)
+Theorem C12_record_container_free : forall (gs : list agt),
+  Forall (fun g => g <> [] /\ int8_ok g = true) gs ->
+  map (fun g => classify_field (vcf_field_gt (render_gt g))) gs =
+  map (fun g => classify_field (bcf_field_gt (hts_encode g (max_ploidy gs)))) gs.
+Proof. exact (@record_container_independent). Qed.
+Print Assumptions C12_record_container_free.
+
+Close Scope string_scope. Open Scope N_scope.
+(* the GT text noodles-bcf rebuilds from an htslib vector is the VCF spelling of the genotype *)
+Theorem C12_bcf_text_is_vcf_text : forall (g : agt) (w : nat),
+  g <> [] -> int8_ok g = true -> (length g <= w)%nat -> bcf_gt_string (hts_encode g w) = render_gt g.
+Proof. exact (@bcf_gt_string_hts). Qed.
+Print Assumptions C12_bcf_text_is_vcf_text.
 
